@@ -130,6 +130,13 @@ def visit(visitor, obj, attr, glyphs):
                 coordinates[i] = visitor.scale(x), visitor.scale(y)
 
 
+@ScalerVisitor.register(ttLib.getTableClass("avar"))
+def visit(visitor, obj):
+    # Nothing in avar is in font units; in particular the deltas of an avar
+    # version 2 VarStore are normalized coordinates and must not be scaled.
+    return False
+
+
 @ScalerVisitor.register_attr(ttLib.getTableClass("gvar"), "variations")
 def visit(visitor, obj, attr, variations):
     glyfTable = visitor.font["glyf"]
